@@ -421,6 +421,32 @@ def run(check, repo: Repo) -> None:
     check.decide(pr == ["sampled.squeeze(1).sum(dim=1)"], "C07-R3", "radon_torch: a projection is the sum over image rows of the rotated image (column sums at 0°)", str(pr), mod.line(rad),
                  fail_detail=f"projection = {pr}")
 
+    # ---- R6 conformance of the code paths: one path for every angle, full complex transforms for the filter ------------------------------
+    # reference radon(): every angle is resampled the same way (no special case for axis-aligned angles — a rot90 turns about (N−1)/2, the
+    # reference about N//2).  reference iradon(): fft(img) * filter, real(ifft(·)) with the FULL length-n filter; the hamming/hann filters
+    # are built from symmetric even-length windows and are NOT Hermitian-symmetric, so rfft/irfft is not equivalent.
+    aloop = next((n for n in walk_no_nested_defs(rad) if isinstance(n, ast.For) and any(isinstance(x, ast.Call) and (call_name(x) or "").endswith("grid_sample") for x in ast.walk(n))), None)
+    if aloop is None:
+        raise AnalysisError("radon_torch: angle loop (the loop that calls grid_sample) not found")
+    avars = {t.id for t in ast.walk(aloop.target) if isinstance(t, ast.Name)}
+    dep = set(avars)
+    for st in aloop.body:  # locals derived from the angle inside the loop
+        if isinstance(st, ast.Assign) and names_in(st.value) & dep:
+            dep |= {t.id for tg in st.targets for t in ast.walk(tg) if isinstance(t, ast.Name)}
+    branches = [n for st in aloop.body for n in ast.walk(st) if isinstance(n, (ast.If, ast.IfExp, ast.While)) and names_in(n.test) & dep]
+    check.decide(not branches, "C07-R6", "radon_torch: every projection angle takes the same resampling path (no angle-dependent branch)", "", mod.line(aloop),
+                 fail_detail=f"`{unparse(branches[0].test)[:60]}` selects another code path for some angles: the reference has none — a quarter-turn shortcut rotates about (N−1)/2 "
+                             f"instead of N//2 and shifts the 90°/180° rows by one detector pixel for even N" if branches else "")
+    tf = [(call_name(c) or "").split(".")[-1] for c in calls_in(irad) if ".fft." in "." + (call_name(c) or "") + "."]
+    ffil = [c for c in calls_in(irad) if (call_name(c) or "").endswith("get_fourier_filter_torch")]
+    if len(ffil) != 1:
+        raise AnalysisError("iradon_torch: filter construction call not found")
+    fname = next((n.targets[0].id for n in walk_no_nested_defs(irad) if isinstance(n, ast.Assign) and n.value is ffil[0] and isinstance(n.targets[0], ast.Name)), None)
+    sliced = [unparse(x)[:50] for x in ast.walk(irad) if isinstance(x, ast.Subscript) and isinstance(x.value, ast.Name) and x.value.id == fname] if fname else []
+    check.decide(sorted(tf) == ["fft", "ifft"] and not sliced, "C07-R6", "iradon_torch: the filter is applied between a full complex fft and ifft over the whole filter (as the reference)", str(tf),
+                 mod.line(ffil[0]), fail_detail=f"transform calls {tf}, filter slices {sliced}: a half-spectrum (rfft/irfft) product equals the reference only for Hermitian-symmetric filters; "
+                                                f"the reference's hamming/hann filters are one sample off symmetry")
+
     # ---- R4 grid_sample pairing -----------------------------------------------------------------------------------------
     gs = [c for c in calls_in(rad) if (call_name(c) or "").endswith("grid_sample")]
     if len(gs) != 1:
